@@ -38,3 +38,78 @@ Print Assumptions C16_range_spec.
 Example C16_nonvacuous :
   valid_time {| t_hour := 23; t_min := 30; t_shift := -1; t_24h := false |} /\ sm_ok 90 = true.
 Proof. unfold valid_time; simpl; split; [lia | reflexivity]. Qed.
+
+(* ---------- literals of the specification and text round trips (added with the specification object Spec/Spec.v) ---------- *)
+From Klog Require Import Spec.Spec Proofs.SpecValues.
+
+(* every time literal of the specification (optional leading zero, 24-hour / am / pm, 24:00 and <24:00, < and > shifts)
+   is accepted with the value it denotes — all 27,000 spellings, by a sweep whose bounds are those of wf_time.
+   (The converse, "every other string of the shape is rejected", is exercised exhaustively by the correspondence
+   suite values/times over all 132,000 strings; it is not yet a Coq theorem: hence _partial.) *)
+Theorem C16_time_literals_partial : forall t, wf_time t = true ->
+  parse_time (render_time t) = Ok (denote_time t) /\ valid_time (denote_time t) /\ time_offset (denote_time t) = timeline t.
+Proof. exact time_literals_accepted. Qed.
+Print Assumptions C16_time_literals_partial.
+
+(* Time.ToString writes a specification spelling, and that spelling denotes the time: 8,640 values *)
+Theorem C16_print_time_is_literal : forall t, valid_time t ->
+  print_time t = render_time (canon_time t) /\ wf_time (canon_time t) = true /\ denote_time (canon_time t) = t.
+Proof. exact ct_all. Qed.
+Print Assumptions C16_print_time_is_literal.
+
+(* every date literal (all Gregorian dates 0000-9999, both separators) is accepted with its value; a literal of the
+   right shape that is not a Gregorian date is rejected *)
+Theorem C16_date_literals_partial : forall d,
+  (wf_date d = true -> parse_date (render_date d) = Ok (denote_date d)) /\
+  (0 <= sd_year d <= 9999 -> 0 <= sd_month d <= 99 -> 0 <= sd_day d <= 99 -> wf_date d = false ->
+   parse_date (render_date d) = Err EUnrepresentableDate).
+Proof. exact date_literals. Qed.
+Print Assumptions C16_date_literals_partial.
+
+Theorem C16_date_roundtrip : forall d, valid_cdate (dt d) = true -> parse_date (print_date d) = Ok d.
+Proof. exact date_roundtrip. Qed.
+Print Assumptions C16_date_roundtrip.
+
+(* every duration literal (sign x optional hours x optional minutes, any leading zeros, minutes < 60 when hours are
+   present) whose amount fits int64 is accepted with its value and notation flags *)
+Theorem C16_duration_literals_partial : forall d, wf_dur d = true -> parse_duration (render_dur d) = Ok (denote_dur d).
+Proof. exact parse_render_dur. Qed.
+Print Assumptions C16_duration_literals_partial.
+
+(* beyond the int64 guard the constructor panics, for every literal of the right shape (finding K5) *)
+Theorem C16_duration_overflow_crashes : forall d, dur_shape d = true -> max_int64 < dur_amount d ->
+  exists c, parse_duration (render_dur d) = Crash c.
+Proof. exact parse_render_dur_overflow. Qed.
+Print Assumptions C16_duration_overflow_crashes.
+
+Theorem C16_duration_overflow_refuted :
+  parse_duration b!"9223372036854775808m" = Crash CAtoiRange
+  /\ parse_duration b!"153722867280912931h" = Crash CIntegerOverflow
+  /\ parse_duration b!"153722867280912930h8m" = Crash CIntegerOverflow.
+Proof. exact duration_overflow_witness. Qed.
+Print Assumptions C16_duration_overflow_refuted.
+
+(* writing a duration out and reading it back: the same minutes, with the notation flags that ToString shows
+   (dur_canonical) — for ALL durations within the safemath range *)
+Theorem C16_duration_roundtrip : forall d, - max_int64 <= d_mins d <= max_int64 ->
+  parse_duration (print_duration d) = Ok (dur_canonical d).
+Proof. exact duration_roundtrip. Qed.
+Print Assumptions C16_duration_roundtrip.
+
+(* decimal printing and reading of every non-negative integer *)
+Theorem C16_decimal_roundtrip : forall z, 0 <= z ->
+  digits_val (dec_nonneg z) = z /\ all_digits (dec_nonneg z) = true /\ dec_nonneg z <> [].
+Proof. exact decimal_roundtrip. Qed.
+Print Assumptions C16_decimal_roundtrip.
+
+(* the specification's equivalences of time literals *)
+Example C16_time_equiv :
+  denote_time {| st_shift := 0; st_hh := 24; st_pad := false; st_mm := 0; st_clock := C24 |}
+    = denote_time {| st_shift := 1; st_hh := 0; st_pad := false; st_mm := 0; st_clock := C24 |}
+  /\ denote_time {| st_shift := -1; st_hh := 24; st_pad := false; st_mm := 0; st_clock := C24 |}
+    = denote_time {| st_shift := 0; st_hh := 0; st_pad := true; st_mm := 0; st_clock := C24 |}
+  /\ time_offset (denote_time {| st_shift := 0; st_hh := 12; st_pad := false; st_mm := 0; st_clock := CAm |}) = 0
+  /\ time_offset (denote_time {| st_shift := 0; st_hh := 12; st_pad := false; st_mm := 0; st_clock := CPm |}) = 720
+  /\ d_mins (denote_dur {| du_sign := SNone; du_h := None; du_m := Some b!"90" |})
+     = d_mins (denote_dur {| du_sign := SNone; du_h := Some b!"1"; du_m := Some b!"30" |}).
+Proof. repeat split; reflexivity. Qed.
